@@ -48,7 +48,9 @@ Definition expected_facts : list string :=
    "Send.snapshot-under-rlock-iterates-copy"; "collect.whole-body-under-write-lock"; "Listen.registers-under-write-lock";
    "Listen.watcher-waits-ctx-then-stop"; "PullID.defer-cancel"; "Delete.send-before-unlock";
    "changesAfter.only-feeds-always-receiving-stage"; "DropExcess.returns-on-every-closed-receive";
-   "mergeCollectionExcess.returns-on-every-closed-receive"]%string.
+   "mergeCollectionExcess.returns-on-every-closed-receive";
+   "Update.send-after-GetAndUpdate-returned"; "Value.set.send-after-GetAndUpdate-returned";
+   "Delete.one-Lock-released-on-retry-and-after-send"]%string.
 
 Definition shape_agrees (rows : list gshape) (facts : list (string * bool)) : bool :=
   list_eqb String.eqb (map g_name rows) expected_goroutines
